@@ -1,7 +1,12 @@
 package main
 
 import (
+	"context"
 	"fmt"
+	tss "github.com/IBM/TSS/types"
+	"strings"
+	"sync"
+	"sync/atomic"
 	"time"
 
 	"verifharness/backend"
@@ -307,4 +312,142 @@ func unitByzOrch(e common.Env, p *common.Part) {
 		p.Write(false)
 	}
 	_ = fmt.Sprint
+}
+
+// ---------------- C03 under concurrent dispatch ----------------
+
+// unitC03conc: the transport may hand a node several messages of one peer at the same time (one goroutine per connection). A
+// Byzantine participant's two versions of one broadcast are handed to each honest node by two goroutines at the same moment,
+// while the honest nodes' acknowledgements travel on the simulated network in concurrent mode. The schemes log to a sink that
+// is slow exactly where the reliable broadcast registers a message (between its check of what it holds for (sender, round) and
+// the update). Oracle: at most one hand-over per (node, sender, round).
+func unitC03conc(e common.Env, p *common.Part) {
+	p.Rule = "real LoudSchemes (barrier synchroniser), N = 3 and 4, key generation and signing, simulated network in concurrent mode; node 1's two versions of each broadcast (real transmissions of a scripted backend) are handed to every honest node by two goroutines released together, in both orders to both of them; the logger the consumer supplies sleeps 300 us in the reliable broadcast's 'Registering' and 'Collected' messages; oracle: <= 1 hand-over per (node, attributed party, round) of broadcast-class messages, byte-identical across honest nodes; distinct key = (N, operation, repetition); non-trivial when both versions reached an honest node"
+	n := e.Pick(160, 6000)
+	for i := 0; i < n; i++ {
+		if !e.Mine(i) || p.ViolationCount() >= 3 {
+			continue
+		}
+		N := 3 + i%2
+		sign := (i/2)%2 == 1
+		var ids []uint16
+		for k := 1; k <= N; k++ {
+			ids = append(ids, uint16(k))
+		}
+		key := fmt.Sprintf("N=%d sign=%v #%d", N, sign, i)
+		p.Begin(key)
+		var hits int64
+		c := cluster.New(cluster.Config{Map: identityMap(ids...), Barrier: true, Threshold: N - 1,
+			Script: backend.Script{Rounds: []uint8{1}, Bcast: true, Versions: map[uint16]int{1: 2}},
+			Logger: common.SlowLog{Prefixes: []string{"Registering", "Collected"}, Delay: 300 * time.Microsecond, Hits: &hits}})
+		c.Net.KeepData = true
+		c.Net.StartConcurrent()
+		var mu sync.Mutex
+		var versions [][]byte
+		var topic []byte
+		released := make(chan struct{})
+		var once sync.Once
+		var hand sync.WaitGroup
+		c.Net.SetInterceptor(1, func(nw *simnet.Net, src uint16, typ uint8, tp, data []byte, dsts []uint16) []simnet.Outgoing {
+			if typ == uint8(tss.MsgTypeMPC) && len(dsts) == N-1 && len(data) > 0 && data[0]>>7 == 1 {
+				// a broadcast payload of node 1 (two versions are emitted one after the other): not sent through the network
+				mu.Lock()
+				versions = append(versions, append([]byte{}, data...))
+				topic = append([]byte{}, tp...)
+				nv := len(versions)
+				mu.Unlock()
+				if nv == 2 {
+					once.Do(func() {
+						for _, d := range ids[1:] {
+							for v := 0; v < 2; v++ {
+								d, v := d, v
+								hand.Add(1)
+								go func() {
+									defer hand.Done()
+									<-released
+									mu.Lock()
+									m := &tss.IncMessage{MsgType: typ, Topic: topic, Source: 1, Data: append([]byte{}, versions[v]...)}
+									mu.Unlock()
+									c.Schemes[d].HandleMessage(m)
+								}()
+							}
+						}
+						close(released)
+					})
+				}
+				return nil
+			}
+			var o []simnet.Outgoing
+			for _, d := range dsts {
+				o = append(o, simnet.Outgoing{Dst: d, Type: typ, Topic: tp, Data: data})
+			}
+			return o
+		})
+		ctx, cancel := context.WithTimeout(context.Background(), 60*time.Millisecond)
+		var wg sync.WaitGroup
+		for _, u := range ids {
+			u := u
+			c.Schemes[u].SetStoredData([]byte("share-of-x"))
+			wg.Add(1)
+			go func() {
+				defer wg.Done()
+				if sign {
+					c.Schemes[u].Sign(ctx, []byte("digest-0123456789abcdef0123456789"), "c03conc")
+				} else {
+					c.Schemes[u].KeyGen(ctx, N, N-1)
+				}
+			}()
+		}
+		wg.Wait()
+		cancel()
+		hand.Wait()
+		time.Sleep(2 * time.Millisecond)
+		c.Net.Stop()
+		// oracle on the backends' own records
+		type k3 struct {
+			node, from uint16
+			round      uint8
+		}
+		cnt := map[k3]int{}
+		payload := map[[2]uint16]string{} // (from, round) -> payload first seen
+		sig, what := "", ""
+		both := false
+		for _, ev := range c.Net.Log() {
+			if ev.Kind != simnet.EvOnMsg || !ev.Bcast {
+				continue
+			}
+			pl, err := backend.Decode(ev.Data)
+			if err != nil {
+				continue
+			}
+			kk := k3{ev.Node, ev.Peer, pl.Round}
+			cnt[kk]++
+			if cnt[kk] > 1 && sig == "" {
+				sig, what = "integrity/handed-over-twice/concurrent-dispatch", fmt.Sprintf("node %d was handed the round-%d broadcast of party %d %d times", ev.Node, pl.Round, ev.Peer, cnt[kk])
+			}
+			pk := [2]uint16{ev.Peer, uint16(pl.Round)}
+			if prev, ok := payload[pk]; ok && prev != string(ev.Data) && sig == "" {
+				sig, what = "agreement/concurrent-dispatch", fmt.Sprintf("two honest hand-overs of party %d's round-%d broadcast differ", ev.Peer, pl.Round)
+			}
+			payload[pk] = string(ev.Data)
+		}
+		mu.Lock()
+		both = len(versions) >= 2
+		mu.Unlock()
+		p.Case(key, both)
+		p.Count("sessions", 1)
+		p.Count("slow_log_calls", atomic.LoadInt64(&hits))
+		if both {
+			p.Count("sessions_with_both_versions_handed_in_concurrently", 1)
+		}
+		if e.Property == "C02" && sig != "" && !strings.HasPrefix(sig, "agreement") {
+			sig = ""
+		}
+		if sig != "" {
+			p.Violate(sig, key+": "+what, map[string]interface{}{"n": N, "sign": sign, "index": i})
+		}
+		if i%37 == 0 {
+			p.Sample(map[string]interface{}{"case": key, "slow_log_calls": atomic.LoadInt64(&hits)})
+		}
+	}
 }
